@@ -138,7 +138,7 @@ def run(res):
                 hook_state["bad"] = (i, op)
         return wl.run_impl(cfg, ops, chdir, hook=hook)
 
-    wl.run_histories(res, nh, oracle, invalid_rate=0.3)
+    wl.run_histories(res, nh, oracle, invalid_rate=0.3, far=True)
     # byte-level "changes nothing" on a subset (hashing every call is slower)
     work = common.scratch_dir()
     for i in range(30 if res.tier == "quick" else 500):
